@@ -24,6 +24,34 @@ use crate::{
 pub struct C15;
 
 static HOOK_YIELDED: AtomicBool = AtomicBool::new(false);
+/// Number of suspensions (hook returned Pending) in the current step
+static HOOK_YIELDS: std::sync::atomic::AtomicU32 = std::sync::atomic::AtomicU32::new(0);
+
+/// Largest number of `import!`s in one source among the expression and every module it reaches
+fn max_import_fanout(mods: &[usize], sources: &BTreeMap<usize, String>) -> usize {
+    let imports_of = |m: usize| -> Vec<usize> {
+        sources
+            .get(&m)
+            .map(|s| {
+                s.match_indices("import! m")
+                    .filter_map(|(i, pat)| s[i + pat.len()..].chars().next().and_then(|c| c.to_digit(10)).map(|d| d as usize))
+                    .collect()
+            })
+            .unwrap_or_default()
+    };
+    let mut best = mods.len();
+    let mut seen = std::collections::BTreeSet::new();
+    let mut todo: Vec<usize> = mods.to_vec();
+    while let Some(m) = todo.pop() {
+        if !seen.insert(m) {
+            continue;
+        }
+        let deps = imports_of(m);
+        best = best.max(deps.len());
+        todo.extend(deps);
+    }
+    best
+}
 
 /// Source of module `i`. `deps` = (module index, "int"|"str": how its `v` is used)
 fn module_source(i: usize, ver: u64, base: i64, kind: &str, state: &str, deps: &[(usize, String)]) -> String {
@@ -199,7 +227,7 @@ impl Engine for C15 {
                 "the step that is cancelled is not compared; every later step is",
             ],
             shrink: vec!["/steps"],
-            quick: (2500, 150),
+            quick: (15000, 150),
             thorough: (80000, 1100),
         }
     }
@@ -296,6 +324,7 @@ impl Engine for C15 {
                 })
                 .unwrap_or(false);
                 if y {
+                    HOOK_YIELDS.fetch_add(1, Ordering::SeqCst);
                     HOOK_YIELDED.store(true, Ordering::SeqCst);
                     Poll::Pending
                 } else {
@@ -415,12 +444,35 @@ impl Engine for C15 {
                     run::set_context(format!("{} step {} {}", if inject.is_some() { "inject" } else { "plain" }, i, op));
                     run::gc_active(true);
                     let mut cycles = Vec::new();
+                    HOOK_YIELDS.store(0, Ordering::SeqCst);
+                    // recorded finding (same mechanism as the C14 finding on parallel import tasks):
+                    // the imports of one source are evaluated concurrently on the importing thread,
+                    // a suspension inside one module body lets the next one run on the same stack
+                    let interleaving_possible = inject.is_some() && max_import_fanout(&mods, &sources) >= 2;
                     let (actual, cancelled) = if op == "eval" {
-                        run_eval(&cur, &format!("e{}", i), &src, inject, &mut cycles)
+                        let name = format!("e{}", i);
+                        if interleaving_possible {
+                            match std::panic::catch_unwind(std::panic::AssertUnwindSafe(|| run_eval(&cur, &name, &src, inject, &mut cycles))) {
+                                Ok(r) => r,
+                                Err(p) => {
+                                    let msg = p.downcast_ref::<String>().cloned().or_else(|| p.downcast_ref::<&str>().map(|s| s.to_string())).unwrap_or_default();
+                                    if HOOK_YIELDS.load(Ordering::SeqCst) > 0 && !msg.contains("forget") {
+                                        return Err(Violation::new(
+                                            "suspended-import-interleaving",
+                                            format!("a module body was suspended while the source importing it has another import: the other module body ran on the same thread's stack, then: panic `{}`", clip(&msg)),
+                                        ));
+                                    }
+                                    std::panic::resume_unwind(p);
+                                }
+                            }
+                        } else {
+                            run_eval(&cur, &name, &src, inject, &mut cycles)
+                        }
                     } else {
                         (run_typecheck(&cur, &format!("e{}", i), &src), false)
                     };
                     run::gc_active(false);
+                    let suspended_with_siblings = interleaving_possible && HOOK_YIELDS.load(Ordering::SeqCst) > 0;
                     evals += 1;
                     if edits_after_eval > 0 {
                         evals_after_edit += 1;
@@ -439,6 +491,15 @@ impl Engine for C15 {
                     } else {
                         if actual.starts_with("HANG") || actual == "POLL-CAP" {
                             return Err(Violation::new("hang", format!("step {} ({} of {:?}): {}", i, op, mods, actual)));
+                        }
+                        if actual != expected && suspended_with_siblings {
+                            return Err(Violation::new(
+                                "suspended-import-interleaving",
+                                format!(
+                                    "a module body was suspended while the source importing it has another import: the other module body ran on the same thread's stack, then: step {} ({} of {:?}) gave `{}` where a fresh VM gives `{}`",
+                                    i, op, mods, clip(&actual), clip(&expected)
+                                ),
+                            ));
                         }
                         if actual != expected {
                             return Err(Violation::new(
